@@ -23,7 +23,7 @@ pub mod prelude {
     pub use crate::slice::ParallelSliceMut;
 }
 
-use control::{Kind, Policy};
+use control::Kind;
 use std::panic::Location;
 
 /// `rayon::join`: two tasks, run a-then-b or b-then-a as the controller says.
@@ -38,6 +38,7 @@ where
     let loc = Location::caller();
     let policy = control::enter_region(Kind::Join, 2, loc);
     let order = control::permutation(policy, 2);
+    let _nest = control::nest();
     if order[0] == 0 {
         let ra = oper_a();
         let rb = oper_b();
@@ -103,9 +104,4 @@ impl ThreadPool {
             self.num_threads
         }
     }
-}
-
-#[allow(dead_code)]
-fn _policy_is_copy(p: Policy) -> Policy {
-    p
 }
